@@ -13,11 +13,11 @@ import time
 from .. import core, gen, obs, refint
 
 DOCS = [
-    {"s": "ab", "i": 5, "f": 1.5, "b": True, "n": None, "l": [1, 2, 3], "ls": ["a", "b"], "le": [], "m": {"x": 1, "y": "s"}, "me": {},
+    {"nz": -0.0, "s": "ab", "i": 5, "f": 1.5, "b": True, "n": None, "l": [1, 2, 3], "ls": ["a", "b"], "le": [], "m": {"x": 1, "y": "s"}, "me": {},
      "lm": [{"x": 1}, {"x": 2}, {"y": 3}], "nest": {"k": {"v": 2}, "7": 2, "200": {"v": "ab"}}},
-    {"s": "zz", "i": 2, "f": 2.5, "b": False, "n": 0, "l": [5], "ls": ["ab", 5, None], "le": [[]], "m": {"x": "ab"}, "me": {"q": {}},
+    {"nz": 0.0, "s": "zz", "i": 2, "f": 2.5, "b": False, "n": 0, "l": [5], "ls": ["ab", 5, None], "le": [[]], "m": {"x": "ab"}, "me": {"q": {}},
      "lm": [{"x": 1, "y": 1}], "nest": {"k": 7}},
-    {"s": "", "i": "5", "l": [], "ls": "a", "m": [{"x": 1}], "lm": {"x": 1, "y": {"x": 1}}, "nest": {}},
+    {"nz": -1.5, "s": "", "i": "5", "l": [], "ls": "a", "m": [{"x": 1}], "lm": {"x": 1, "y": {"x": 1}}, "nest": {}},
 ]
 K = gen.kq
 QUERIES = {
@@ -38,10 +38,11 @@ QUERIES.update({
     "m[keys==5]": K("m") + KF("==", 5), "m[keys!=5]": K("m") + KF("!=", 5), "me[keys=='q']": K("me") + KF("==", "q"),
     "lm[keys in ['y','x']].x": K("lm") + KF("in", ["y", "x"]) + K("x"), "nest[keys=='k'].*": K("nest") + KF("==", "k") + [["all"]],
     # digits-only keys (written quoted): a map entry of that name, or the list element at that index
+    "nz": K("nz"),      # negative zero / zero / a negative float
     'nest."7"': K("nest", "7"), 'nest."200".v': K("nest", "200", "v"), 'l."1"': K("l", "1"), 's."0"': K("s", "0"),
 })
-LITS = {"5": 5, "2": 2, "1.5": 1.5, '"ab"': "ab", '"a"': "a", "true": True, "null": None, "[1,2,3]": [1, 2, 3], "[5]": [5], "{x:1,y:s}": {"x": 1, "y": "s"},
-        "/^a/": {"$re": "^a"}, "r[1,5]": {"$range": [1, 5, "[", "]"]}, "r(1.0,2.0)": {"$range": [1.0, 2.0, "(", ")"]}, '[5,"ab"]': [5, "ab"]}
+LITS = {"0.0": 0.0, "5": 5, "2": 2, "1.5": 1.5, '"ab"': "ab", '"a"': "a", "true": True, "null": None, "[1,2,3]": [1, 2, 3], "[5]": [5], "{x:1,y:s}": {"x": 1, "y": "s"},
+        "/^a/": {"$re": "^a"}, "r[1,5]": {"$range": [1, 5, "[", "]"]}, "r(1.0,2.0)": {"$range": [1.0, 2.0, "(", ")"]}, "r[0.0,1.0]": {"$range": [0.0, 1.0, "[", "]"]}, "[0.0,1.5]": [0.0, 1.5], '[5,"ab"]': [5, "ab"]}
 BIN = ["==", "<", "<=", ">", ">=", "in"]
 
 
